@@ -75,6 +75,12 @@ pub fn convert_grammar_functions_to_semantic_functions(
         }
         let function = function::build(type_registry, &module.scope(), true, function)
             .with_context(|| format!("while building vftable function `{}`", function.name))?;
+        if output.iter().any(|f| f.name == function.name) {
+            anyhow::bail!(
+                "vftable function `{}` is defined more than once",
+                function.name
+            );
+        }
         output.push(function);
     }
 
